@@ -778,6 +778,11 @@ class Reflector:
                 self._block(st.body, ctx + (c,), out)
                 if st.orelse:
                     self._block(st.orelse, ctx + ("not " + c,), out)
+                else:
+                    # a guard clause (`if c: ... return / continue / break / raise`): whatever follows in this block runs under `not c`
+                    from . import flow as _flow
+                    if _flow.always_exits(st.body):
+                        ctx = ctx + ("not " + c,)
             elif isinstance(st, ast.While):
                 c = self.cond(st.test)
                 out.append((ctx, "while " + c))
